@@ -203,24 +203,10 @@ type Counter struct {
 func (c *Counter) note(x [3]float64, yielded bool) {
 	c.mu.Lock()
 	c.Calls++
-	if c.Per != nil {
-		c.Per[x]++
-	}
 	if yielded {
 		c.Yields++
 	}
 	c.mu.Unlock()
-}
-
-//go:norace
-func (c *Counter) MaxPerPoint() int {
-	m := 0
-	for _, v := range c.Per {
-		if v > m {
-			m = v
-		}
-	}
-	return m
 }
 
 // Solid3 adapts a Shape to model3d.Solid.
